@@ -13,6 +13,7 @@ Inductive op :=
 | MapSet (x y v : Z)
 | MapGetRect (x y w h : Z)
 | MapSetRect (x y : Z) (rows : list (list Z))
+| MapGetRectPx (x y w h : Z)
 | FlagGet (id fl : Z) | FlagSet (id fl : Z) | FlagClear (id fl : Z) | FlagReset (id fl : Z)
 | NoteGet (id n : Z)
 | NoteSet (id n : Z) (p w v e : option Z)
@@ -75,6 +76,15 @@ Definition set_cell (mg : list Z * list Z) (x y v : Z) : list Z * list Z :=
 Definition spec_get_rect (m g : list Z) (x y w h : Z) : list (list Z) :=
   map (fun ty => map (fun tx => if (63 <? ty) || (127 <? tx) then 0 else get_cell m g tx ty) (zrange x w))
       (zrange y h).
+(* get_rect_pixels: the rectangle of get_rect_tiles drawn as pixels - every row of tiles gives 8
+   rows of pixels, every tile 8 pixels of each of them. Tile 0 is empty (all 0, as PICO-8 draws
+   it, not sprite 0); any other tile t is the 8x8 block of the sprite sheet whose upper left pixel
+   is at column (t mod 16) * 8, row (t / 16) * 8 *)
+Definition tile_px (g : list Z) (t xo yo : Z) : Z :=
+  if t =? 0 then 0 else get_px g ((t mod 16) * 8 + xo) ((t / 16) * 8 + yo).
+Definition spec_get_rect_pixels (m g : list Z) (x y w h : Z) : list (list Z) :=
+  flat_map (fun tiles => map (fun yo => flat_map (fun t => map (fun xo => tile_px g t xo yo) (upto 8)) tiles) (upto 8))
+           (spec_get_rect m g x y w h).
 Definition spec_set_rect (mg : list Z * list Z) (x y : Z) (rows : list (list Z)) : list Z * list Z :=
   fold_left (fun mg yr => let '(ty, row) := yr in
     fold_left (fun mg xv => let '(tx, v) := xv in
@@ -124,6 +134,7 @@ Definition spec_step (s : mem) (o : op) : mem * val :=
   | MapSetRect x y rows =>
     let '(m, g) := spec_set_rect (m_map s, m_gfx s) x y rows in
     ({| m_gfx := g; m_map := m; m_gff := m_gff s; m_music := m_music s; m_sfx := m_sfx s |}, VNone)
+  | MapGetRectPx x y w h => (s, VRows (spec_get_rect_pixels (m_map s) (m_gfx s) x y w h))
   | FlagGet id fl => (s, VInt (Z.land (at_ (m_gff s) id) fl))
   | FlagSet id fl =>
     ({| m_gfx := m_gfx s; m_map := m_map s; m_gff := put (m_gff s) id (Z.lor (at_ (m_gff s) id) fl);
@@ -173,6 +184,7 @@ Definition in_contract (o : op) : bool :=
   | MapSet x y v => inr 0 x 127 && inr 0 y 63 && inr 0 v 255
   | MapGetRect x y w h => inr 0 x 127 && inr 0 y 63 && (1 <=? w) && (1 <=? h)
   | MapSetRect x y rows => (0 <=? x) && (0 <=? y) && rows_in 0 255 rows
+  | MapGetRectPx x y w h => inr 0 x 127 && inr 0 y 63 && (1 <=? w) && (1 <=? h) && (y + h <=? 64)
   | FlagGet id fl | FlagSet id fl | FlagClear id fl | FlagReset id fl => inr 0 id 255 && inr 0 fl 255
   | NoteGet id n => inr 0 id 63 && inr 0 n 31
   | NoteSet id n p w v e => inr 0 id 63 && inr 0 n 31 && oinr 0 p 63 && oinr 0 w 15 && oinr 0 v 7 && oinr 0 e 7
